@@ -125,6 +125,25 @@ def packRegVvvvv (reg vvvvv : Nat) : BitVec 32 := BitVec.ofNat 32 (reg + vvvvv *
 def r32 (n : Nat) : BitVec 32 := BitVec.ofNat 32 n
 def b2w (b : Bool) : BitVec 32 := if b then 1#32 else 0#32
 
+/-- `EmitX86OpMovAbs`: segment override, then `EmitX86Op` with the address as an immediate of the native register size -/
+def emitMovAbs (c : Ctx) (opcode options : BitVec 32) (m : Mem) : Except Err (List Byte) := do
+  let body ← emitX86Op opcode options m.offset (if c.mode64 then 8 else 4)
+  pure (segmentPrefix m.seg ++ body)
+
+/-- `x86_should_use_movabs` (`size` = register size; the writer is at `c.off`) -/
+def shouldUseMovabs (c : Ctx) (size : Nat) (options : BitVec 32) (m : Mem) : Bool :=
+  let modOpt := (options &&& (oModMR ||| oModRM)) != 0#32
+  if !c.mode64 then !modOpt
+  else if m.addrType == 2 || modOpt then false
+  else
+    let relOrSmall : Bool :=
+      match (if m.addrType == 0 && m.seg == 0 then c.base else none) with
+      | some base =>
+        let isz : Nat := (if m.seg != 0 then 1 else 0) + (if size == 2 then 1 else 0) + (if size == 8 || (options &&& oRex) != 0#32 then 1 else 0) + 1 + 8
+        isInt32of64 (m.offset - (base + BitVec.ofNat 64 (c.off + isz)))
+      | none => isInt32of64 m.offset
+    if relOrSmall then false else m.offset.toNat > 0xFFFFFFFF
+
 /-- the encoding switch; `pfx` are the LOCK/REP bytes already written, `options` already contains the forced options -/
 def dispatch (c : Ctx) (r : Row) (options : BitVec 32) (o0 o1 o2 o3 : Op) : Except Err (List Byte) :=
   let opcode := r.mainOp
@@ -156,6 +175,12 @@ def dispatch (c : Ctx) (r : Row) (options : BitVec 32) (o0 o1 o2 o3 : Op) : Exce
     else if isign3 == MR + 4 * 64 then emitVexEvexM c opcode options (r32 o1.id) (memOf o0) o2.immVal 1
     else .error .invalidInstruction
   let lx01 := opcodeLBySize (o0.rmSize ||| o1.rmSize)
+  -- VexRmMr: load = main opcode, store = alternative opcode (keeping LL)
+  let vexRmMr (opc : BitVec 32) : Except Err (List Byte) :=
+    if isign3 == RR then emitVexEvexR c opc options (r32 o0.id) (r32 o1.id) 0 0
+    else if isign3 == RM then emitVexEvexM c opc options (r32 o0.id) (memOf o1) 0 0
+    else if isign3 == MR then emitVexEvexM c ((opc &&& kLL_Mask) ||| r.altOp) options (r32 o1.id) (memOf o0) 0 0
+    else .error .invalidInstruction
   match r.encoding with
   | 0x14 => x86RM (addPrefixBySize opcode o0.rmSize) 0 0                       -- X86Rm
   | 0x15 =>                                                                       -- X86Rm_Raw66H (66 + [F2|F3]: the 66 byte is written first)
@@ -192,8 +217,13 @@ def dispatch (c : Ctx) (r : Row) (options : BitVec 32) (o0 o1 o2 o3 : Op) : Exce
   | 0x72 => vexRvm opcode                                                          -- VexRvm
   | 0x75 => vexRvm (opcode ||| lx01)                                               -- VexRvm_Lx
   | 0x76 => vexRvm ((opcode ||| (b2w o0.isMask <<< 12)) ||| lx01)                  -- VexRvm_Lx_KEvex
+  | 0x73 => vexRvm (opcode ||| (if o0.rmSize == 8 && o0.isGp || o2.rmSize == 8 then kW else 0#32))   -- VexRvm_Wx (`o0.is_gp64() | o2.x86_rm_size() == 8`)
+  | 0x7b => vexRvmi (opcode ||| (b2w o0.isMask <<< 12))                            -- VexRvmi_KEvex
+  | 0x7d => vexRvmi ((opcode ||| (b2w o0.isMask <<< 12)) ||| lx01)                 -- VexRvmi_Lx_KEvex
   | 0x7a => vexRvmi opcode                                                         -- VexRvmi
   | 0x7c => vexRvmi (opcode ||| lx01)                                              -- VexRvmi_Lx
+  | 0x83 => vexRmMr opcode                                                         -- VexRmMr
+  | 0x84 => vexRmMr (opcode ||| lx01)                                               -- VexRmMr_Lx
   | 0x62 =>                                                                        -- VexMr_Lx
     let opcode := opcode ||| lx01
     if isign3 == RR then emitVexEvexR c opcode options (r32 o1.id) (r32 o0.id) 0 0
@@ -393,13 +423,18 @@ def dispatch (c : Ctx) (r : Row) (options : BitVec 32) (o0 o1 o2 o3 : Op) : Exce
     else if isign3 == RM then
       if !o0.isGp then .error .unmodelled else
       let m := memOf o1
-      if o0.id == 0 && m.baseType == 0 && m.indexType == 0 then .error .unmodelled else
+      -- `mov ah, [abs]` takes the accumulator path too (AH has the id of AL): a defect (fixes/C01-15.patch), not modelled
+      if o0.id == 0 && m.baseType == 0 && m.indexType == 0 && o0.isGp8Hi then .error .unmodelled else
+      if o0.id == 0 && m.baseType == 0 && m.indexType == 0 && shouldUseMovabs c o0.rmSize options m then
+        emitMovAbs c (addArithBySize 0#32 o0.rmSize + 0xA0#32) options m else
       let (opt1, rg) := if o0.rmSize == 1 then fixupGpb options o0 (r32 o0.id) else (options, r32 o0.id)
       emitX86M c (addArithBySize 0#32 o0.rmSize + 0x8A#32) opt1 rg m 0 0
     else if isign3 == MR then
       if !o1.isGp then .error .unmodelled else
       let m := memOf o0
-      if o1.id == 0 && m.baseType == 0 && m.indexType == 0 then .error .unmodelled else
+      if o1.id == 0 && m.baseType == 0 && m.indexType == 0 && o1.isGp8Hi then .error .unmodelled else
+      if o1.id == 0 && m.baseType == 0 && m.indexType == 0 && shouldUseMovabs c o1.rmSize options m then
+        emitMovAbs c (addArithBySize 0#32 o1.rmSize + 0xA2#32) options m else
       let (opt1, rg) := if o1.rmSize == 1 then fixupGpb options o1 (r32 o1.id) else (options, r32 o1.id)
       emitX86M c (addArithBySize 0#32 o1.rmSize + 0x88#32) opt1 rg m 0 0
     else if isign3 == 1 + 4 * 8 then                                              -- Reg, Imm
@@ -415,6 +450,21 @@ def dispatch (c : Ctx) (r : Row) (options : BitVec 32) (o0 o1 o2 o3 : Op) : Exce
       let msz := o0.rmSize
       if msz == 0 then .error .ambiguousOperandSize else
       emitX86M c (addPrefixBySize (if msz != 1 then 0xC7#32 else 0xC6#32) msz) options 0#32 (memOf o0) o1.immVal (min msz 4)
+    else .error .unmodelled
+  | 0x2d =>                                                                       -- X86Movabs (moffs forms; `movabs r64, imm64` not modelled)
+    if isign3 == RM then
+      let m := memOf o1
+      if !o0.isGp || o0.id != 0 then .error .invalidInstruction
+      else if o0.isGp8Hi then .error .unmodelled                                   -- (defect, fixes/C01-15.patch)
+      else if m.baseType != 0 || m.indexType != 0 then .error .invalidAddress
+      else if m.addrType == 2 then .error .invalidAddress
+      else emitMovAbs c (addArithBySize 0xA0#32 o0.rmSize) options m
+    else if isign3 == MR then
+      let m := memOf o0
+      if !o1.isGp || o1.id != 0 then .error .invalidInstruction
+      else if o1.isGp8Hi then .error .unmodelled
+      else if m.baseType != 0 || m.indexType != 0 then .error .invalidAddress
+      else emitMovAbs c (addArithBySize 0xA2#32 o1.rmSize) options m
     else .error .unmodelled
   | 0x0e =>                                                                       -- X86M_Only
     if isign3 == 2 then emitX86M c opcode options opReg0 (memOf o0) 0 0 else .error .invalidInstruction
@@ -464,6 +514,11 @@ def emitInst (mode64 : Bool) (base : Option (BitVec 64)) (off : Nat) (r : Row) (
     else Except.ok [])
   let pfx := lock ++ rep
   let c := r.ctx mode64 base (off + pfx.length) k
+  -- `EmitVexEvexR` refuses {er}/{sae} on vcvtsi2sd / vcvtusi2sd with a 32-bit integer source and on vcmpsd / vcmpss whose destination is
+  -- not a mask register (InvalidEROrSAE): the same answer as an instruction without the capability
+  let isGp32 (x : Op) : Bool := match x with | .reg 5 _ => true | _ => false
+  let erSaeBan := ((r.id == 882 || r.id == 915) && isGp32 (o 2)) || ((r.id == 832 || r.id == 834) && !(o 0).isMask)
+  let c := if erSaeBan then { c with hasER := false, hasSAE := false } else c
   let body ← dispatch c r options (o 0) (o 1) (o 2) (o 3)
   pure (pfx ++ body)
 
